@@ -83,6 +83,16 @@ Log(e) == hist' = Append(hist, e)
 App(i, x) == [p |-> inst[i].params, m |-> inst[i].model, x |-> x]
 NoOut == [p |-> Defaults, m |-> <<>>, x |-> 0]
 
+\* A flavour is free in how it REPRESENTS its model (the state object a user train function returns is opaque to forml):
+\* besides the event list itself the replays drive a flavour whose state is a single number, the running sum of the
+\* event weights - a trained model may well have the sum 0 (a falsy state object) and still is a trained model, only
+\* <<>> is "untrained".  Tally is the observation expected of such an actor (exported along with the model).
+RECURSIVE KeySum(_, _)
+KeySum(p, k) == IF k = 0 THEN 0 ELSE k * p[k] + KeySum(p, k - 1)
+Weight(e) == e.d - 1 + KeySum(e.p, NP)
+RECURSIVE Tally(_)
+Tally(m) == IF m = <<>> THEN 0 ELSE Weight(Head(m)) + Tally(Tail(m))
+
 \* instance 1 is built from the initial builder right away (every interesting history starts like that; it buys one
 \* more call inside the same Depth)
 Fresh(b) == [built |-> TRUE, params |-> Resolve(b), model |-> <<>>]
@@ -217,10 +227,10 @@ SetStateKeepsParams == [][E.op = "setstate" => (inst'[E.i].params = inst[E.i].pa
 \* so this prints one behaviour per TRANSITION of the bounded state graph - including the no-op calls (pickle,
 \* empty state) - with the expected observation.  apply steps are skipped (apply is observed after every
 \* behaviour anyway).  Compact arrays:
-\* [[op, i, j, d, p]...], [[built, params, [[p, d]...]]...], builder kwargs)
+\* [[op, i, j, d, p]...], [[built, params, [[p, d]...]]...], builder kwargs, [Tally of the model...])
 Export == (Len(hist) > 2 /\ hist[Len(hist)].op # "apply") =>
     PrintT(ToJson(<<[n \in 1..Len(hist) |-> <<hist[n].op, hist[n].i, hist[n].j, hist[n].d, hist[n].p>>],
                     [i \in Inst |-> <<inst[i].built, inst[i].params,
                                       [n \in 1..Len(inst[i].model) |-> <<inst[i].model[n].p, inst[i].model[n].d>>]>>],
-                    bld>>))
+                    bld, [i \in Inst |-> Tally(inst[i].model)]>>))
 =============================================================================
